@@ -14,7 +14,7 @@ LEVEL = "model_checking"
 ASSUMPTIONS = L.ASSUMPTIONS
 INV = ["Linearizable", "ResidentFound", "Sorted", "BucketsLinked", "FlagsOk", "InTabIsPhysical", "Conservation", "NoUAF"]
 COMP = L.comp_for(INV)
-QUICK = ["lfht_adl", "lfht_b4", "lfht_grow", "lfht_shrink", "lfht_trav", "lfht_addr_repl", "lfht_destroy"]
+QUICK = ["lfht_adl", "lfht_b4", "lfht_grow", "lfht_shrink", "lfht_trav", "lfht_addr_repl", "lfht_repl_add", "lfht_destroy"]
 THOROUGH = QUICK + ["lfht_grow4", "lfht_shrink4", "lfht_regrow", "lfht_addr_repl3", "lfht_resize8"]
 NEG = [("lfht_adl", "lookup_keeps_removed"), ("lfht_grow", "size_early")]
 
